@@ -31,12 +31,6 @@ def judge(stream, d):
 
     def add(kind, what, details):
         sig = 'C19.' + what
-        # narrow classifier of known finding F-C19-retry-local-source (see known_findings.json): a Retry state
-        # of a hierarchical machine is let in although its limit is used up, and among its consecutive self
-        # re-entries is one through a transition declared inside the parent's state dict
-        if what == 'retry-exact' and details.get('expected') == 'failed' and details.get('outcome') == 'entered' \
-                and details.get('locally_declared') and feat.is_nested(d['cls']):
-            sig = 'C19.retry-local-source'
         fails.append(Failure(kind, what, case, details, signature=sig))
 
     if run.build_error:
@@ -184,7 +178,7 @@ class C19(runner.Check):
              "raise vs Volatile creation) are mirrored by the model, not judged.",
         technique="Lean 4 proof (induction over op histories, invariants) + differential correspondence + Python oracle")
     theorems = ('TM.C19_tags', 'TM.C19_tags_mutable', 'TM.C19_tags_built', 'TM.C19_caller_lists_unchanged', 'TM.C19_error_iff',
-                'TM.C19_volatile_kept', 'TM.C19_flat_veto', 'TM.C19_retry_scoped_partial', 'TM.C19_retry_scoped_counterexample', 'TM.C19_volatile_fresh', 'TM.C19_volatile_removed',
+                'TM.C19_volatile_kept', 'TM.C19_flat_veto', 'TM.C19_retry_scoped', 'TM.C19_volatile_fresh', 'TM.C19_volatile_removed',
                 'TM.C19_volatile_history', 'TM.C19_retry_exact', 'TM.C19_retry_unlimited', 'TM.C19_per_model_frame', 'TM.C19_per_model',
                 'TM.C19_feature_free_unchanged', 'TM.C19_flat_trigger')
     rule = ('random decorated machine classes: every subset of {Tags, Error, Volatile, Retry} in random decorator order '
